@@ -57,7 +57,7 @@ class Dfx:
         return None
 
     def local_expr(self, local, depth=0):
-        if 1 <= local <= self.b.arg_count and not self.defs.get(local):
+        if 1 <= local <= self.b.arg_count and not self.whole_defs(local):
             return ("param", local)
         if local in self._memo:
             return self._memo[local]
